@@ -3,7 +3,7 @@
 From Coq Require Import List ZArith Bool.
 From Coq.Strings Require Import Byte.
 Import ListNotations.
-From Zap Require Import Base.Wire Enc.Bytes Enc.Fields Enc.JsonEnc Enc.JsonParse Enc.WireEnc.
+From Zap Require Import Base.Wire Enc.Bytes Enc.Fields Enc.JsonEnc Enc.JsonParse Enc.WireEnc Enc.Wf.
 
 Definition json_line (ec : ecase) : option bytes :=
   let c := ec_cfg ec in
@@ -20,3 +20,8 @@ Definition spec (i o : sx) : bool :=
   | [SB out] => line_ok (resolved_le (ec_cfg (dec_case i))) out
   | _ => false
   end.
+
+(* assumption monitor: the oracle texts of the case (strconv floats, encoding/json values) are well formed *)
+Definition wf_case (ec : ecase) : bool :=
+  forallb wf_flds (ec_ctxs ec) && wf_flds (ec_fs ec) && wf_entry (ec_ent ec).
+Definition wf (i : sx) : bool := wf_case (dec_case i).
